@@ -24,6 +24,7 @@ class KDTree:
         parent : int = None # id of the parent node
         points : np.ndarray = None # indices of contained points
         bb : AABB = None # bounding box of contained points
+        n_failed_splits : int = 0 # number of consecutive axes along which the points could not be separated
 
         @property
         def size(self):
@@ -74,7 +75,17 @@ class KDTree:
             else: # the leaf needs to be split
                 # split the points according to the current axis
                 split_value, pts_less, pts_more = self._split_points(leaf.points, leaf.split_axis)
-                
+                if pts_less.size==0 or pts_more.size==0:
+                    # the pivot does not separate the points along this axis (repeated coordinates):
+                    # try the next axis, and keep an oversized leaf once every axis has failed
+                    leaf.n_failed_splits += 1
+                    if leaf.n_failed_splits >= self.dim:
+                        self.nodes.append(leaf)
+                    else:
+                        leaf.split_axis = (leaf.split_axis + 1)%self.dim
+                        queue.appendleft(leaf)
+                    continue
+
                 # we create a new node to replace the original leaf and append two leaves that will be its children
                 node = KDTree.Node(leaf.id, leaf.split_axis, parent=leaf.parent, bb=leaf.bb, split_value=split_value)
                 leaf_less = self._new_leaf((leaf.split_axis + 1)%self.dim, leaf.id, pts_less)
